@@ -45,6 +45,118 @@ theorem samenuc_iff_sets_intersect :
 
 theorem samenuc_symm_iupac : ∀ x ∈ iupacSyms, ∀ y ∈ iupacSyms, samenuc x y = samenuc y x := by decide
 
+/-! ## The packed cell of the LCS kernel (fastlcs.go) -/
+
+/-- **`cell_order`** — for 16-bit scores and lengths (`< 65535`: the length field holds `65534 - length`):
+comparing two in-band packed cells as `uint64` is the lexicographic comparison (score, then SHORTER length);
+every out-of-band cell is below every in-band cell; the codec round-trips. -/
+theorem cell_order (s l s' l' : Nat) (hs : s < 65536) (hs' : s' < 65536) (hl : l < 65535) (hl' : l' < 65535) :
+    (encodeValues s l false ≤ encodeValues s' l' false ↔ (s < s' ∨ (s = s' ∧ l' ≤ l))) ∧
+    (encodeValues s l true ≤ encodeValues s' l' true ↔ (s < s' ∨ (s = s' ∧ l' ≤ l))) ∧
+    encodeValues s l true < encodeValues s' l' false ∧
+    (∀ o, decodeValues (encodeValues s l o) = (s, l, o)) :=
+  ⟨encode_le_iff s l s' l' false hs hs' (by omega) (by omega),
+   encode_le_iff s l s' l' true hs hs' (by omega) (by omega),
+   encode_out_lt_in s l s' l' hs hs' (by omega) (by omega),
+   fun o => decode_encode s l o hs (by omega)⟩
+
+/-- the cell operations act on the fields as their names say (no carry between the fields within the bounds) -/
+theorem cell_ops (s l : Nat) (o : Bool) (hs : s + 1 < 65536) (hl : l + 1 < 65535) :
+    incpath (encodeValues s l o) = encodeValues s (l + 1) o ∧
+    incscore (encodeValues s l o) = encodeValues (s + 1) l o ∧
+    setout (encodeValues s l o) = encodeValues s l true :=
+  ⟨incpath_encode s l o (by omega) (by omega), incscore_encode s l o hs (by omega),
+   setout_encode s l o (by omega) (by omega)⟩
+
+/-- the bound is sharp: at length 65535 the inverted length field wraps around and a longer path compares as
+better than a shorter one (test on one value, showing the hypothesis `l < 65535` cannot be dropped) -/
+example : ¬ (encodeValues 0 65535 false ≤ encodeValues 0 0 false) := by decide
+
+/-! ## The LCS kernel
+
+Specification: `Ali samenuc a b s l` = there is an alignment of `a` and `b` with `l` columns, `s` of which pair
+two IUPAC-compatible symbols (`samenuc`, i.e. by `samenuc_iff_sets_intersect` symbols whose nucleotide sets
+intersect); the other columns are mismatches or gaps. The LCS length is the largest such `s`, the "shortest
+alignment achieving it" the smallest `l` for that `s`; the number of differences of an alignment is `l - s`.
+
+The theorems are stated on the structural layer `bandLCS` (the banded matrix of `FastLCSEGFScoreByte`,
+endgapfree = false, by rows, with the packed `uint64` cells, the band limits, `_out`/`_notavail` and `_setout`
+of the code); the verbatim two-row/anti-diagonal transcription `fastLCSEGFScoreByte` is executed side by side with
+it on every correspondence case (`layer-mismatch` otherwise). -/
+
+/-- **`lcsDP_is_lcs`** — the textbook full-matrix recurrence `lcsDP` returns (LCS length, length of the shortest
+alignment achieving it): its value is realised by an alignment and no alignment has a higher score, or the same
+score with fewer columns. For every compatibility relation `m`, all sequences. -/
+theorem lcsDP_is_lcs (m : UInt8 → UInt8 → Bool) (a b : Seq) :
+    Ali m a b (lcsDP m a b).1 (lcsDP m a b).2 ∧
+    ∀ s l, Ali m a b s l → (s < (lcsDP m a b).1 ∨ (s = (lcsDP m a b).1 ∧ (lcsDP m a b).2 ≤ l)) := by
+  refine ⟨(lcsDP_opt m a b).1, fun s l h => ?_⟩
+  have := (lcsDP_opt m a b).2 s l h
+  rw [better_iff] at this
+  simp only at this
+  omega
+
+/-- **`fastLCS_sound`** — never a spurious answer, for every bound (`-1` included) and all sequences with
+`|a| + |b| < 30000` (the sentinel `_notavail` is the length 30000): an answer `(s, l)` of the kernel is the score
+and the length of an actual alignment. In particular `s ≤ LCS`, and if `s = LCS` then `l ≥` the shortest
+alignment length, so an answer can never claim fewer differences than the sequences have. -/
+theorem fastLCS_sound (a b : Seq) (e : Int) (s l : Nat) (hlen : a.length + b.length + 1 ≤ 30000)
+    (h : bandLCS a b e = some (s, l)) :
+    Ali samenuc a b s l ∧
+    (s < (lcsDP samenuc a b).1 ∨ (s = (lcsDP samenuc a b).1 ∧ (lcsDP samenuc a b).2 ≤ l)) :=
+  ⟨bandLCS_sound a b e s l hlen h, (lcsDP_is_lcs samenuc a b).2 s l (bandLCS_sound a b e s l hlen h)⟩
+
+/-- corollary: a returned pair whose own number of differences is within the bound proves that the sequences
+have an alignment with that few differences (no spurious within-bound answer) -/
+theorem fastLCS_within_bound_is_real (a b : Seq) (e : Int) (s l : Nat) (hlen : a.length + b.length + 1 ≤ 30000)
+    (h : bandLCS a b e = some (s, l)) (hb : (l : Int) - s ≤ e) :
+    ∃ s' l', Ali samenuc a b s' l' ∧ (l' : Int) - s' ≤ e :=
+  ⟨s, l, bandLCS_sound a b e s l hlen h, hb⟩
+
+/- FULL STATEMENT of `fastLCS_exact` (DESIGN §4 C09), not proved in this generality:
+
+     theorem fastLCS_exact (a b : Seq) (e : Int) (hlen : a.length + b.length + 1 ≤ 30000)
+         (h : e = -1 ∨ ((lcsDP samenuc a b).2 : Int) - (lcsDP samenuc a b).1 ≤ e) :
+         bandLCS a b e = some (lcsDP samenuc a b)
+     theorem fastLCS_beyond (…) (h : e ≠ -1 ∧ e < l_opt - lcs) :
+         bandLCS a b e = none ∨ ∃ s l, bandLCS a b e = some (s, l) ∧ e < l - s
+
+   What is missing is the band-containment argument for a NARROW band (an optimal path with at most `e`
+   differences stays strictly inside the diagonals `(-2·extra, 2·(delta+extra))`, so the cells `_setout` marks on
+   the two border diagonals are never on it). Proved below: the statement for every bound under which the band
+   covers the whole matrix — always the case for `e = -1` (no bound), and for explicit bounds
+   `e ≥ max(lA/2, lA - lB/2)` roughly (`wideBand`). For narrow bands the property is covered by `fastLCS_sound`
+   (nothing spurious) and, for exactness, by the oracle of the correspondence check only (exhaustive pairs up to
+   length 4/5/6 × bounds -1..4, random pairs to 500 bases). -/
+
+/-- **`fastLCS_exact_partial`** — with no bound (`e = -1`), or with a bound whose band covers the whole matrix,
+the kernel returns exactly (LCS length, length of the shortest alignment achieving it) = the textbook optimum
+`lcsDP` (see `lcsDP_is_lcs`), for all sequences with `|a| + |b| < 30000`. The packed-cell arithmetic, the
+sentinels, the three-way `uint64` selection and the boundary cells are all part of what is proved. -/
+theorem fastLCS_exact_partial (a b : Seq) (e : Int) (hlen : a.length + b.length + 1 ≤ 30000)
+    (h : e = -1 ∨ wideBand (max a.length b.length) (min a.length b.length) e) :
+    bandLCS a b e = some (lcsDP samenuc a b) := by
+  by_cases he : e = -1
+  · subst he; exact bandLCS_exact_unbounded a b hlen
+  · rcases h with h | h
+    · exact absurd h he
+    · exact bandLCS_exact_wide a b e hlen he h
+
+/-- the unbounded kernel is symmetric in its arguments (consequence of exactness) -/
+theorem fastLCS_symm_unbounded (a b : Seq) (hlen : a.length + b.length + 1 ≤ 30000) :
+    bandLCS a b (-1) = bandLCS b a (-1) := by
+  rw [fastLCS_exact_partial a b (-1) hlen (.inl rfl), fastLCS_exact_partial b a (-1) (by omega) (.inl rfl),
+    lcsDP_samenuc_swap]
+
+/-- non-vacuity of `wideBand`: lengths 4 and 3 with the bound 3 -/
+example : wideBand (max 4 3) (min 4 3) 3 := by unfold wideBand; decide
+
+/-- non-vacuity (tests on sample values): "acvt"/"acct" align fully now that v ∋ c; bound 0 on a pair needing
+a gap is "not found" -/
+example : bandLCS [97, 99, 118, 116] [97, 99, 99, 116] 0 = some (4, 4) := by decide
+example : bandLCS [97, 99, 103, 116] [97, 103, 116] 0 = none ∧ bandLCS [97, 99, 103, 116] [97, 103, 116] 1 = some (3, 4) := by
+  decide
+
 /-! ## The one-difference test `D1Or0`
 
 Stated on the structural layer `d1F` (prefix / suffix stripping); the verbatim index-loop transcription `d1or0`
